@@ -1144,6 +1144,34 @@ func RunWireNil(p *Prog, root *ssa.Function, cmdFunctionNonNil bool) *WireNil {
 							}
 						}
 					}
+				case *ssa.Slice:
+					// x[:k] / x[k:] with a constant bound on a wire-derived list or text: shorter input panics
+					if w.tainted[x.X] {
+						isSeq := false
+						switch u := x.X.Type().Underlying().(type) {
+						case *types.Slice:
+							isSeq = true
+						case *types.Basic:
+							isSeq = u.Info()&types.IsString != 0
+						}
+						var bound int64
+						for _, bv := range []ssa.Value{x.Low, x.High} {
+							if bv == nil {
+								continue
+							}
+							if k, isK := constInt(bv); isK && k > bound {
+								bound = k
+							}
+						}
+						if isSeq && bound > 0 {
+							w.Total++
+							if bound == 1 && w.factsAt[ins]["ln:"+wpath(x.X, 0)] {
+								w.Guarded++
+							} else {
+								w.Findings = append(w.Findings, wnFinding{f, ins, fmt.Sprintf("index[:%d]", bound), displayPath(wpath(x.X, 0))})
+							}
+						}
+					}
 				case *ssa.Index:
 					// s[k] on a wire-derived string: an empty (or short) text panics
 					if bt, isB := x.X.Type().Underlying().(*types.Basic); isB && bt.Info()&types.IsString != 0 && w.tainted[x.X] {
